@@ -133,13 +133,16 @@ func c10Check(m lkModel, rec *ev.Recorder) []harness.Viol {
 		return nil
 	}
 	res := lab.RunInProcess(dir, lab.Want{Diags: true, Versions: bothVersions, Engines: []string{"gin"}})
-	if res.Panic != "" {
+	// a crash while emitting means validation had already let the project through: that is an acceptance
+	// decision (and, for a well-linked project, a failure to generate); crashes before that belong to C14 alone
+	emitCrash := res.Panic != "" && (strings.HasPrefix(res.PanicStage, "spec-") || strings.HasPrefix(res.PanicStage, "routes-"))
+	if res.Panic != "" && !emitCrash {
 		rec.Label("gleece-panicked (reported under C14)", 1)
 		return nil
 	}
 	fd := flattenDiags(res.Diags)
 	codes := errorCodes(fd)
-	accepted := res.Accepted() && len(codes) == 0
+	accepted := (res.Accepted() || (emitCrash && res.ConfigErr == nil && res.RunErr == nil)) && len(codes) == 0
 	// "never rejected" is about the command: a well-linked project must also get its spec and routes
 	generationFailure := ""
 	if accepted {
@@ -152,6 +155,10 @@ func c10Check(m lkModel, rec *ev.Recorder) []harness.Viol {
 		if res.RoutesErr["gin"] != nil {
 			generationFailure = "routes-failed"
 		}
+		if emitCrash {
+			generationFailure = res.PanicStage + "-crashed"
+			rec.SetExtra("last_generation_failure", firstLine(res.Panic))
+		}
 	}
 	var viols []harness.Viol
 	desc := fmt.Sprintf("perturbations=%v\n%s", applied, lkDescribe(ctrls))
@@ -163,7 +170,7 @@ func c10Check(m lkModel, rec *ev.Recorder) []harness.Viol {
 	switch {
 	case expectOK && accepted && generationFailure != "":
 		viols = append(viols, harness.Viol{Signature: fmt.Sprintf("C10:spurious-reject:via=%s:%s", strings.Join(appliedKinds(applied), "+"), generationFailure),
-			Message: fmt.Sprintf("every route satisfies the link rules and validation passes, but generation fails (%s): %s\n%s", generationFailure, fmtErr(firstErr(res)), desc)})
+			Message: fmt.Sprintf("every route satisfies the link rules and validation passes, but generation fails (%s): %s\n%s", generationFailure, fmtErr(firstErr(res))+firstLine(res.Panic), desc)})
 	case expectOK && accepted:
 		rec.Label("well-linked-accepted", 1)
 	case !expectOK && !accepted:
@@ -248,6 +255,7 @@ func TestC10(t *testing.T) {
 	harness.Run(t, harness.Prop[lkModel]{
 		ID:       "C10",
 		Gen:      lkGen,
+		Sweep:    lkSweep,
 		Check:    c10Check,
 		Classify: c10Classify,
 		Canon:    func(m lkModel) string { return jsonStr(m) },
@@ -266,4 +274,11 @@ func TestC10(t *testing.T) {
 		Assume: []string{"a bare primitive/special body is treated as ill-formed (explicit coded rule `receiver-invalid-body`; the only narrowing of the converse, see DESIGN.md C10)"},
 		Floors: map[string]float64{"nontrivial": 0.5, "perturbation-breaks-a-rule": 0.3},
 	})
+}
+
+func firstLine(s string) string {
+	if i := strings.IndexByte(s, '\n'); i >= 0 {
+		return s[:i]
+	}
+	return s
 }
